@@ -481,7 +481,7 @@ impl<B: MysqlShim<RW>, RW: Read + Write> MysqlIntermediary<B, RW> {
                         )
                     })?;
                     {
-                        let params = params::ParamParser::new(params, state);
+                        let mut params = params::ParamParser::new(params, state);
                         params.check()?;
                         let w = QueryResultWriter::new(&mut self.rw, true);
                         self.shim.on_execute(stmt, params, w)?;
